@@ -702,7 +702,7 @@ void registerPurityEngine()
     e.execute = execute;
     e.simplify = simplify;
     e.auxiliary = auxiliary;
-    e.timeoutS = 120;
+    e.timeoutS = 60;
     e.firstShrinkableArg = 1;
     e.crashProperty = "C12";
     registerEngine(e);
